@@ -112,6 +112,10 @@ def rules(ctx):
     purity.no_unsafe(ctx, "R1.no-unsafe")
     error_discipline(ctx, keys + [SWAPS + "::improve_depot_and_recompute_transitions"])
     path_exchange_filters_vehicles(ctx)
+    hitch_hiking_refuses_conflicts(ctx)
+    free_track_filter(ctx)
+    from .C15 import inf_conversions
+    inf_conversions(ctx, "R3")        # cached counters of candidates use one substitute for 'infinitely far'
     # R3: candidates only through the modification API
     common.who_may_call(ctx, "R3.schedule-new-callers", S("new"), [SCHEDULE + "::"],
                         "Schedule::new (trusted constructor) is called only inside impl Schedule", floor=12)
@@ -150,6 +154,74 @@ def rules(ctx):
         if not any(a.startswith("call:" + SCHEDULE + "::") for a in at) or "param:2" not in at:
             bad.append(k)
     ctx.decide(o, not bad, "all candidates derive from Schedule methods applied to the base schedule", "no Schedule API in the result of %s" % bad)
+
+
+def hitch_hiking_refuses_conflicts(ctx, rid="R2"):
+    """AddTripForHitchHiking only ADDS a trip: when add_path_to_vehicle_tour reports displaced nodes the swap must be refused, because nothing
+    in the swap hands them back"""
+    keys = [k for k in swap_apply_keys(ctx) if "AddTripForHitchHiking" in k]
+    o = ctx.ob("%s.hitch-hiking-refuses-conflicts" % rid, "T10", SWAP_TRAIT,
+               "AddTripForHitchHiking looks at the conflict path returned by add_path_to_vehicle_tour and answers Err when there is one")
+    if not keys:
+        ctx.undecided(o, "swap implementation not found")
+        return
+    fd = ctx.fd(keys[0])
+    ap = calls_to(fd, S("add_path_to_vehicle_tour"))
+    if not ap:
+        ctx.undecided(o, "add_path_to_vehicle_tour is not called directly")
+        return
+    looked = False
+    for ins in fd.body.instrs():
+        if ins.kind == "assign" and ins.rv_kind() == "discr":
+            pl = ins.discr_place()
+            ty = fd.body.local_ty(pl.local) if not pl.proj else str(pl.proj[-1].get("ty") or "")
+            if ty.startswith(("std::option::Option<solution::path::Path", "core::option::Option<solution::path::Path")) and any(d.instr is ap[0] for d in fd.slice(seed_locals=[pl.local], control=False)["defs"]):
+                looked = True
+    OPT = ("std::option::Option<solution::path::Path", "core::option::Option<solution::path::Path",
+           "&std::option::Option<solution::path::Path", "&core::option::Option<solution::path::Path")
+    for c in fd.body.calls():        # ... or handed to is_some() / is_none() / map_or(..) and the like
+        for a in c.args[:1]:
+            if a.place is not None and not a.place.proj and fd.body.local_ty(a.place.local).startswith(OPT) \
+                    and any(d.instr is ap[0] for d in fd.slice(seed_locals=[a.place.local], control=False)["defs"]):
+                looked = True
+    ctx.decide(o, looked, "the returned conflict path is matched on",
+               "the conflict path returned by add_path_to_vehicle_tour is never looked at: the activities the hitch-hiked trip displaces "
+               "from the vehicle's tour vanish from the candidate (no dummy tour, no refusal)", loc=ap[0].line())
+
+
+def free_track_filter(ctx, rid="R2"):
+    """maintenance spawning is offered for slots with a FREE track: vehicle_count < track_count (strict); the sort key that follows divides
+    by the track count, which the strict test also keeps away from zero"""
+    key = "solver::local_search::neighborhood::RSSchedParallelNeighborhood::spawn_vehicle_for_maintenance_iterator"
+    o, fd0 = ctx.require_fn("%s.free-track-filter-is-strict" % rid, "T12", key,
+                            "slots are offered for maintenance spawning only while vehicle_count < track_count")
+    if fd0 is None:
+        return
+    cnt, lim = call(TRAINF + "::vehicle_count"), call(N("track_count_of_maintenance_slot"))
+    found = []
+    for k in ctx.prog.family(key):
+        f = ctx.fd(k)
+        if f is None:
+            continue
+        for ins in f.body.instrs():
+            if ins.kind != "assign" or ins.rv_kind() != "binop" or ins.rv["op"] not in ("Lt", "Le", "Gt", "Ge"):
+                continue
+            a = f.slice_operand_pure(ins, ins.ops[0])["atoms"]
+            b = f.slice_operand_pure(ins, ins.ops[1])["atoms"]
+            if cnt in a and lim in b and cnt not in b:
+                found.append((ins, ins.rv["op"]))
+            elif cnt in b and lim in a and cnt not in a:
+                found.append((ins, {"Lt": "Gt", "Gt": "Lt", "Le": "Ge", "Ge": "Le"}[ins.rv["op"]]))
+    if not found:
+        ctx.undecided(o, "no comparison of the vehicle count with the track count found")
+    elif any(op == "Le" for _, op in found):
+        i = [i for i, op in found if op == "Le"][0]
+        ctx.bad(o, "`vehicle_count <= track_count` at %s also offers full slots, and a slot with 0 tracks reaches the sort key's division by its "
+                "track count: candidate generation panics" % i.line(), loc=i.line())
+    elif all(op == "Lt" for _, op in found):
+        ctx.ok(o, "%d strict comparison(s)" % len(found))
+    else:
+        ctx.undecided(o, "comparison forms %s" % [op for _, op in found])
 
 
 def controls(ctx):
